@@ -55,6 +55,15 @@ FAILED, bystander unaffected) or replace the target; passing the task on with
 the old bytes is `target-wrong-content|<backend>.<op>|...:target-preexists`
 (the backend operation, run alone on an existing target, keeps it silently).
 
+Targets which denote a directory: part `intodir` gives COPY and TRANSFER (dict,
+`f > d/`, `d/ < f`; input and output, all four components) a target with a
+trailing slash (directory new / existing), the name of an existing directory
+(made by the harness, by an earlier directive of the list, by an earlier task),
+a sandbox root (`task:///`) or the empty string.  The code under test gives
+`cp file dir/` semantics for every one of them (observed on the clean tree for
+all 502 cases, none is refused), so that is what the target clause asks for:
+the bytes are at <directory>/<base name of the source>, the task is not FAILED.
+
 Directories which come and go: part `dirs` lets a directive stage into a
 directory D (created on the way), has D moved away -- by a MOVE directive whose
 source is D (same list, or the other staging side of the task / of the next
@@ -295,9 +304,33 @@ class Directive(object):
             self.tgt_text     = None
             self.exp_tgt_text = os.path.basename(path_part(self.src_text))
 
+        # the target denotes a directory: the file goes into it, under the
+        # base name of the source (`cp file dir/`)
+        #   slash-new        `loc:///R/`, R does not exist
+        #   slash-existing   `loc:///R/`, R exists
+        #   noslash-existing `loc:///R`,  R exists (made by the harness)
+        #   noslash-created  `loc:///R`,  R was created by an earlier directive
+        #   root             `loc:///`    the sandbox itself
+        #   empty            ''           (dictionary form)
+        self.into_dir   = spec.get('tgt_dir')
+        self.dir_before = None
+        if self.into_dir:
+            if   self.into_dir == 'root' : text = '%s:///' % self.tgt_loc
+            elif self.into_dir == 'empty': text = ''
+            else:
+                text = text_for(self.tgt_loc, named('R'), absdir)
+                if self.into_dir.startswith('slash'):
+                    text += '/'
+            self.tgt_text = self.exp_tgt_text = text
+
         spwd, tpwd    = pwd_of(direction, self.action, sbx)
         self.src_path = resolve(self.src_text,     spwd, sbx)
         self.tgt_path = resolve(self.exp_tgt_text, tpwd, sbx)
+        if self.into_dir:
+            if self.into_dir.endswith('existing'):
+                self.dir_before = self.tgt_path
+            self.tgt_path = os.path.join(self.tgt_path, os.path.basename(
+                                         path_part(self.src_text)))
         self.content  = 'payload %s %d of %s via %s\n' % (direction, idx,
                                               self.src_text, self.action)
         # where the staged bytes are when the target clause is evaluated: a
@@ -680,8 +713,10 @@ def resolution_fault(d, sbx):
     documented contexts, resolve this directive like the reference does?"""
     from radical.pilot.staging_directives import complete_url
     spwd, tpwd = pwd_of(d.direction, d.action, sbx)
+    # (a target which denotes a directory resolves to that directory)
+    tgt_path = os.path.dirname(d.tgt_path) if d.into_dir else d.tgt_path
     for side, text, pwd, want in (('source', d.src_text,     spwd, d.src_path),
-                                  ('target', d.exp_tgt_text, tpwd, d.tgt_path)):
+                                  ('target', d.exp_tgt_text, tpwd, tgt_path)):
         ctx = dict(sbx, pwd=pwd)
         if d.side == 'agent':
             ctx.pop('client')
@@ -962,7 +997,33 @@ def good_failed(site, tm, dirs):
     for d in dirs:
         if resolution_fault(d, tm.sbx):
             return SITE_RESOLVE
+    for d in dirs:
+        if d.into_dir and d.action in (COPY, TRANSFER):
+            backend = backend_copy_into_dir_fails(tm, d)
+            if backend:
+                return '%s.copy' % backend
     return site
+
+
+def backend_copy_into_dir_fails(tm, d):
+    """diagnosis: does the stager's own copy(), run alone, put a file into a
+    directory (existing, or named with a trailing slash)?"""
+    stager = rpu.StagingHelper(seams.null())
+    absdir = os.path.dirname(tm.sbx['client']) + '/abs'
+    src    = '%s/probe/into.src.%d' % (absdir, d.idx)
+    tgt    = '%s/probe/into.dir.%d' % (absdir, d.idx)
+    write_file(src, 'new')
+    if d.into_dir != 'slash-new':
+        os.makedirs(tgt, exist_ok=True)
+    try:
+        stager.copy('file://localhost%s' % src,
+                    'file://localhost%s%s' % (tgt, '/' if d.into_dir.startswith(
+                                                       'slash') else ''))
+    except Exception:
+        return type(stager._backend).__name__
+    if read_file('%s/%s' % (tgt, os.path.basename(src))) != 'new':
+        return type(stager._backend).__name__
+    return None
 
 
 def unstageable_site(w, d):
@@ -1164,6 +1225,8 @@ def _check_case(part, case, root, verbose):
             for d in tm.ins:
                 if d.present and not d.isdir:
                     write_file(d.src_path, d.content)
+                if d.dir_before:
+                    os.makedirs(d.dir_before, exist_ok=True)
         preexisting(tasks, 'in')
 
         # -- submission: real Task.__init__ -> expand_description ------------------
@@ -1331,6 +1394,8 @@ def _check_case(part, case, root, verbose):
             for d in tm.outs:
                 if d.present and not d.isdir:
                     write_file(d.src_path, d.content)
+                if d.dir_before:
+                    os.makedirs(d.dir_before, exist_ok=True)
             preexisting([tm], 'out')
             app_moves(tm, 'exec_moves')
             task['state']        = rps.AGENT_STAGING_OUTPUT_PENDING
@@ -1699,6 +1764,48 @@ def gen_cases(quick):
                 cases.append(dict(shared(a, loc), part='dirs', order='A;C',
                                   more={'C': shared(c, loc)}))
 
+    # part intodir: the target of a COPY / TRANSFER denotes a directory
+    for direction in ('in', 'out'):
+        for action, form in ((COPY, 'dict'), (TRANSFER, 'dict'),
+                             (TRANSFER, '>'), (TRANSFER, '<')):
+            agent = action == COPY
+            srcs  = [['pilot', 'sub'], ['rel', 'sub']]
+            if not agent:
+                srcs.append(['client', 'sub'])
+            for src in srcs:
+                for mode in ('slash-new', 'slash-existing',
+                             'noslash-existing', 'root', 'empty'):
+                    locs = ['task', 'pilot', 'session', 'rel', 'abs']
+                    if not agent      : locs.append('client')
+                    if mode == 'root' : locs = [x for x in locs
+                                                  if x in SANDBOXES]
+                    if mode == 'empty': locs = ['task']
+                    if mode == 'empty' and form != 'dict':
+                        continue
+                    for loc in locs:
+                        d = {'form': form, 'src': src, 'tgt': [loc, 'flat'],
+                             'tgt_dir': mode, 'odd': 'into-dir'}
+                        if form == 'dict':
+                            d['action'] = action
+                        cases.append({'part': 'intodir', 'order': 'A',
+                                      direction: [d]})
+        # ... a name which an earlier directive / task created as a directory
+        for action, loc in itertools.product((COPY, TRANSFER),
+                                             ('task', 'pilot', 'session')):
+            first = {'form': 'dict', 'action': action, 'src': ['pilot', 'sub'],
+                     'tgt': [loc, 'flat'], 'tgt_name': 'R/f1',
+                     'odd': 'dir-first'}
+            again = {'form': 'dict', 'action': action, 'src': ['pilot', 'sub'],
+                     'tgt': [loc, 'flat'], 'tgt_dir': 'noslash-created',
+                     'odd': 'into-dir'}
+            cases.append({'part': 'intodir', 'order': 'A',
+                          direction: [dict(first), dict(again)]})
+            a = {direction: [dict(first)]}
+            c = {direction: [dict(again)]}
+            if loc == 'task':
+                a['sandbox'] = c['sandbox'] = 'shared_sandbox'
+            cases.append(dict(a, part='intodir', order='A;C', more={'C': c}))
+
     # part seq3: three tasks one after the other through one world
     for direction in ('in', 'out'):
         if quick:
@@ -1844,7 +1951,11 @@ def run(ctx):
                  ' (same) 2%s tasks, staged and checked one after the other, '
                  'whose directives (5 actions + `f > g`) name the same target '
                  'in the pilot / session / resource sandbox or in a task '
-                 'sandbox shared via description.sandbox; (dirs) a directory '
+                 'sandbox shared via description.sandbox; (intodir) COPY / '
+                 'TRANSFER whose target denotes a directory: trailing slash on '
+                 'a new / existing directory, name of an existing directory '
+                 '(harness, earlier directive, earlier task), sandbox root, '
+                 'empty target, x target location x source location; (dirs) a directory '
                  'is created by a directive, moved away (by a MOVE directive of'
                  ' the same list / of the other staging side, by the task '
                  'itself, by the application) and staged into again, in one '
